@@ -1688,8 +1688,32 @@ pub fn c17_par(_: &State) -> Vec<Failure> {
     Vec::new()
 }
 
+/// The same on an arena big enough for rayon to split the slice (100 000 slots, every third removed).
+pub fn c17_par_big() -> Vec<Failure> {
+    let mut a: Arena<Payload> = Arena::new();
+    let ids: Vec<NodeId> = (0..100_000usize).map(|i| a.new_node(Payload((i % 251) as u8))).collect();
+    for id in ids.iter().step_by(3) {
+        id.remove(&mut a);
+    }
+    c17_par_arena(&a)
+}
+
+#[cfg(not(feature = "it-par"))]
+pub fn c17_par_arena(_: &Arena<Payload>) -> Vec<Failure> {
+    Vec::new()
+}
+
 #[cfg(feature = "it-par")]
 pub fn c17_par(s: &State) -> Vec<Failure> {
+    c17_par_arena(&s.arena)
+}
+
+#[cfg(feature = "it-par")]
+pub fn c17_par_arena(arena: &Arena<Payload>) -> Vec<Failure> {
+    struct S<'a> {
+        arena: &'a Arena<Payload>,
+    }
+    let s = S { arena };
     use rayon::prelude::*;
     use std::sync::OnceLock;
     static POOLS: OnceLock<Vec<rayon::ThreadPool>> = OnceLock::new();
